@@ -3,6 +3,7 @@ package props
 import (
 	"fmt"
 	"math/rand"
+	"sort"
 	"strconv"
 	"strings"
 	"time"
@@ -28,6 +29,25 @@ func (e *protoExec) close() {
 	if e.c != nil {
 		e.c.Close()
 	}
+}
+
+// stateTwoPass shows a cluster that is still moving: the leaders' cursors are read first, the logs
+// afterwards (a log only grows while no RPC is under way), so that an acknowledged offset is never
+// compared with an older view of the follower's log.
+func (e *protoExec) stateTwoPass() string {
+	first := make([]cluster.NodeView, e.n)
+	for i := 0; i < e.n; i++ {
+		first[i] = e.c.View(i)
+	}
+	parts := make([]string, e.n)
+	for i := 0; i < e.n; i++ {
+		v := e.c.View(i)
+		if v.Ctrl == "L" && first[i].Ctrl == "L" && v.Term == first[i].Term {
+			v.Cursors = first[i].Cursors
+		}
+		parts[i] = v.String(i)
+	}
+	return strings.Join(parts, " ")
 }
 
 func (e *protoExec) state() string {
@@ -72,7 +92,11 @@ func (e *protoExec) opInner(op string) string {
 	}
 	if e.unrel || e.c.Snapshot.Load() {
 		// a snapshot transfer (outside M-Repl) or a cluster that did not settle: the rest of the script is
-		// not comparable
+		// not comparable with the model. What the nodes hold is still shown to the oracle when no snapshot
+		// was involved: an acknowledgement is a statement about durable storage at any time.
+		if f[0] == "p.state" && !e.c.Snapshot.Load() {
+			return "~unsettled " + e.stateTwoPass()
+		}
 		return "~skipped"
 	}
 	mark := func(s string) string {
@@ -275,6 +299,9 @@ func (e *protoExec) opInner(op string) string {
 	case "p.state":
 		if !e.c.WaitSettled(8 * time.Second) {
 			e.unrel = true
+			if !e.c.Snapshot.Load() {
+				return "~unsettled " + e.stateTwoPass()
+			}
 		}
 		return mark(e.state())
 	case "p.astat":
@@ -297,7 +324,28 @@ func (e *protoExec) opInner(op string) string {
 				ids = append(ids, x[strings.Index(x, ":")+1:])
 			}
 		}
-		return mark("vis=" + strings.Join(ids, ","))
+		// what the leader's database really holds (annotation for the oracle: applied = committed);
+		// the application follows the commit offset asynchronously, so give it a moment
+		want := append([]string{}, ids...)
+		sort.Strings(want)
+		db := ""
+		for try := 0; try < 100; try++ {
+			got, ok := e.c.LeaderDBIds(i)
+			if !ok {
+				break
+			}
+			sort.Strings(got)
+			db = " ~db=" + strings.Join(got, ",")
+			if strings.Join(got, ",") == strings.Join(want, ",") {
+				break
+			}
+			time.Sleep(10 * time.Millisecond)
+		}
+		r := mark("vis=" + strings.Join(ids, ","))
+		if !strings.HasPrefix(r, "~") {
+			r += db
+		}
+		return r
 	}
 	return "bad-op"
 }
@@ -496,14 +544,51 @@ func protoOracle(ops, impl []string, which string) string {
 			break
 		}
 		out := impl[i]
-		if j := strings.Index(out, " ~pre "); j >= 0 {
-			for n, s := range parseProtoState(out[j+6:]) {
-				preLog[n] = s.log
-			}
+		dbIds, haveDB := []string(nil), false
+		if j := strings.Index(out, " ~"); j >= 0 {
+			ann := out[j+2:]
 			out = out[:j]
+			switch {
+			case strings.HasPrefix(ann, "pre "):
+				for n, s := range parseProtoState(ann[4:]) {
+					preLog[n] = s.log
+				}
+			case strings.HasPrefix(ann, "db="):
+				haveDB = true
+				if v := strings.TrimPrefix(ann, "db="); v != "" {
+					dbIds = strings.Split(v, ",")
+				}
+			}
+		}
+		if strings.HasPrefix(out, "~unsettled ") {
+			// a cluster that did not come to rest (no snapshot involved): what a follower has acknowledged it
+			// holds, at any time
+			if which == "C03" {
+				st := parseProtoState(strings.TrimPrefix(out, "~unsettled "))
+				for n, s := range st {
+					if s.ctrl != "L" || s.status != "leader" {
+						continue
+					}
+					for fo, ack := range s.cursors {
+						if fo >= len(st) || st[fo].term != s.term || st[fo].ctrl != "F" {
+							continue
+						}
+						for k := 0; k <= ack && k < len(s.log); k++ {
+							if k >= len(st[fo].log) || st[fo].log[k] != s.log[k] {
+								got := "nothing"
+								if k < len(st[fo].log) {
+									got = st[fo].log[k]
+								}
+								return fmt.Sprintf("op %d: follower n%d acknowledged offset %d to the leader n%d of term %d but holds %s at offset %d where the leader holds %s (the cluster did not come to rest)", i, fo, ack, n, s.term, got, k, s.log[k])
+							}
+						}
+					}
+				}
+			}
+			return ""
 		}
 		if strings.HasPrefix(out, "~") {
-			return "" // the rest is not comparable (snapshot transfer or unsettled cluster)
+			continue // not comparable (snapshot transfer or unsettled cluster)
 		}
 		f := strings.Fields(o)
 		switch {
@@ -543,6 +628,26 @@ func protoOracle(ops, impl []string, which string) string {
 				var ids []string
 				if v := strings.TrimPrefix(out, "vis="); v != "" {
 					ids = strings.Split(v, ",")
+				}
+				// C02: the database the read is served from holds the effects of the committed entries and of
+				// nothing else
+				if haveDB && want("C02") {
+					inVis := map[string]bool{}
+					for _, id := range ids {
+						inVis[id] = true
+					}
+					inDB := map[string]bool{}
+					for _, id := range dbIds {
+						inDB[id] = true
+						if !inVis[id] {
+							return fmt.Sprintf("op %d: the database of the leader n%s holds write %s, which is not in its committed log (%s): uncommitted or rolled-back data is served", i, f[1], id, strings.Join(ids, ","))
+						}
+					}
+					for _, id := range ids {
+						if !inDB[id] {
+							return fmt.Sprintf("op %d: the database of the leader n%s does not hold write %s, which is in its committed log at or below the commit offset: a committed entry was never applied", i, f[1], id)
+						}
+					}
 				}
 				// C02: what a read has shown is never rolled back: the earlier view is a prefix
 				for k, id := range visible {
@@ -793,6 +898,18 @@ func genProtoDirected(rng *rand.Rand, which string, i int) []string {
 			"p.elect 1 2", fmt.Sprintf("p.write 1 %d", 300+i), "p.settle", "p.state", "p.heal 0", "p.settle", "p.state", fmt.Sprintf("p.write 1 %d", 400+i), "p.settle", "p.state",
 			"p.elect 2 3", "p.settle", "p.state", "p.read 2"}
 	}
+	if which == "C03" && i%5 == 1 {
+		// a young shard (nothing committed, so no snapshot is sent): entries are pushed towards a follower
+		// that cannot be reached, the follower restarts (the stream breaks with entries in flight), the
+		// cursor reconnects: everything at or below what the follower acknowledges afterwards must be there
+		k := 1 + rng.Intn(3)
+		out := []string{"p.init n=3", "p.elect 0 1", "p.cut 1", "p.cut 2"}
+		for j := 0; j < k; j++ {
+			out = append(out, fmt.Sprintf("p.write 0 %d", 50+10*i+j))
+		}
+		out = append(out, "p.state", "p.restart 2", "p.heal 2", fmt.Sprintf("p.write 0 %d", 7000+i), "p.settle", "p.state", "p.heal 1", "p.settle", "p.state", "p.read 0")
+		return out
+	}
 	if which == "C03" && i%5 == 4 {
 		// a deposed leader whose uncommitted tail is of a term the next leader has no entry of, while that
 		// leader holds (re-committed) entries of a lower term further up: `getHighestEntryOfTerm` answers with
@@ -843,6 +960,16 @@ func genProtoDirected(rng *rand.Rand, which string, i int) []string {
 				"p.cut 0", "p.heal 2", "p.electm 2 2 members=0,2,3 removed=1", "p.state", "p.read 2"}
 		}
 	case "C02":
+		if i%4 == 3 {
+			// an election that is abandoned while the new leader waits for its log to reach a quorum: the
+			// node holds an uncommitted entry, is fenced again, follows another leader that commits something
+			// else at that offset, and leads later: its database must hold what is committed, nothing else
+			a, b, c := 10+i, 1000+i, 3000+i
+			return []string{"p.init n=3", "p.elect 0 1", fmt.Sprintf("p.write 0 %d", a), "p.settle", "p.cut 0", fmt.Sprintf("p.write 0 %d", b), "p.state",
+				"p.newterm 0 2", "p.newterm 1 2", "p.cut 1", "p.lead 0 2 rf=3 fm=1:1:0", "p.state",
+				"p.heal 1", "p.elect 1 3", fmt.Sprintf("p.write 1 %d", c), "p.settle", "p.state", "p.read 1",
+				"p.heal 0", "p.elect 1 4", "p.settle", "p.state", "p.read 1", "p.elect 0 5", "p.settle", "p.state", "p.read 0"}
+		}
 		if i%4 == 1 {
 			// a leader that only re-commits entries of older terms is followed by a leader with a higher head
 			// term (known finding D-40)
